@@ -312,4 +312,788 @@ inductive ATrans (count queues : Nat) : Abs → Abs → Prop
   | ret (a : Abs) (f : Nat) (h : (a.sg f).kind = .woken ∨ (a.sg f).kind = .done) :
       ATrans count queues a { a with sg := upd a.sg f ⟨.idle, 0, 0, 0⟩ }
 
+/-! ## 3. every access-level step is a coarse transition -/
+
+/-- a step that changes only the pc of `f`, to a pc with the same signature -/
+theorem stutter_pc {count queues : Nat} (s : St) (f : Nat) (v : Pc) (h : sig v = sig (s.pc f))
+    (s' : St) (hc : s'.counter = s.counter) (hm : s'.members = s.members) (hr : s'.rnd = s.rnd)
+    (he : s'.entered = s.entered) (ht : s'.told = s.told) (hs : s'.serials = s.serials)
+    (hp : s'.pc = upd s.pc f v) : ATrans count queues (abs s) (abs s') := by
+  have : abs s' = abs s := by
+    simp only [abs, hc, hm, hr, he, ht, hs, hp, sig_upd, h]
+    congr 1
+    exact upd_self (fun x => sig (s.pc x)) f
+  rw [this]; exact .stutter _
+
+macro "stut" hpc:term : tactic =>
+  `(tactic| (refine stutter_pc _ _ _ ?_ _ rfl rfl rfl rfl rfl rfl rfl; simp [$hpc:term]))
+
+theorem step_refines {count queues : Nat} {s s' : St} {e : Ev}
+    (h : step count queues s e = some s') : ATrans count queues (abs s) (abs s') := by
+  cases e with
+  | callWait f k =>
+    simp only [step] at h
+    split at h
+    · next hg =>
+      split at h
+      · next hm =>
+        simp at h; subst h
+        have hT := ATrans.call (count := count) (queues := queues) (abs s) f (by simp [abs, hg.1]) (by simpa [abs] using hm)
+        simpa [abs, sig_upd] using hT
+      · next hm =>
+        split at h
+        · next hl =>
+          simp at h; subst h
+          have hT := ATrans.join (count := count) (queues := queues) (abs s) f (by simp [abs, hg.1]) (by simpa [abs] using hm) (by simpa [abs] using hl)
+          simpa [abs, sig_upd] using hT
+        · simp at h
+    · simp at h
+  | fadd f old =>
+    simp only [step] at h
+    split at h
+    · next hpc =>
+      split at h
+      · next ho =>
+        subst ho
+        split at h
+        · next hmod =>
+          simp at h; subst h
+          have hT := ATrans.serial (count := count) (queues := queues) (abs s) f (by simp [abs, hpc]) (by simpa [abs] using hmod)
+          simpa [abs, sig_upd] using hT
+        · next hmod =>
+          simp at h; subst h
+          have hT := ATrans.arrive (count := count) (queues := queues) (abs s) f (by simp [abs, hpc]) (by simpa [abs] using hmod)
+          simpa [abs, sig_upd] using hT
+      · simp at h
+    · simp at h
+  | wState f g v =>
+    simp only [step] at h
+    split at h
+    · next q c hpc =>
+      split at h
+      · simp at h; subst h; stut hpc
+      · simp at h
+    · next q c need g' hpc =>
+      split at h
+      · split at h
+        · next c' hg =>
+          simp at h; subst h
+          have hT := ATrans.wake (count := count) (queues := queues) (abs s) f q c need (by simp [abs, hpc])
+          have hgg : upd (fun x => sig (s.pc x)) g ⟨.woken, c', 0, 0⟩ = fun x => sig (s.pc x) := by
+            have := upd_self (fun x => sig (s.pc x)) g
+            simpa [hg] using this
+          simpa [abs, sig_upd, sig_afterWake, hgg] using hT
+        · simp at h
+      · simp at h
+    · simp at h
+  | rState f g v =>
+    simp only [step] at h
+    split at h
+    · next q c need h0 g' hpc =>
+      split at h
+      · split at h
+        · simp at h; subst h; stut hpc
+        · split at h
+          · next c' hg =>
+            simp at h; subst h
+            have hT := ATrans.wake (count := count) (queues := queues) (abs s) f q c need (by simp [abs, hpc])
+            have hgg : upd (fun x => sig (s.pc x)) g ⟨.woken, c', 0, 0⟩ = fun x => sig (s.pc x) := by
+              have := upd_self (fun x => sig (s.pc x)) g
+              simpa [hg] using this
+            simpa [abs, sig_upd, sig_afterWake, hgg] using hT
+          · simp at h
+      · simp at h
+    · simp at h
+  | rNode f g n =>
+    simp only [step] at h
+    split at h
+    · next q c hpc =>
+      split at h
+      · simp at h; subst h; stut hpc
+      · simp at h
+    · simp at h
+  | wNode f g n =>
+    simp only [step] at h
+    split at h
+    · next q c m hpc =>
+      split at h
+      · simp at h; subst h; stut hpc
+      · simp at h
+    · next q c need h0 g' hpc =>
+      split at h
+      · simp at h; subst h; stut hpc
+      · simp at h
+    · simp at h
+  | wData f n g =>
+    simp only [step] at h
+    split at h
+    · next q c m hpc =>
+      split at h
+      · simp at h; subst h; stut hpc
+      · simp at h
+    · next q c need h0 x0 g' hpc =>
+      split at h
+      · simp at h; subst h; stut hpc
+      · simp at h
+    · simp at h
+  | rData f n g =>
+    simp only [step] at h
+    split at h
+    · next q c need h0 x0 g' hpc =>
+      split at h
+      · simp at h; subst h; stut hpc
+      · simp at h
+    · next q c need h0 g' hpc =>
+      split at h
+      · simp at h; subst h; stut hpc
+      · simp at h
+    · simp at h
+  | wNext f n x =>
+    simp only [step] at h
+    split at h
+    · next q c m hpc =>
+      split at h
+      · simp at h; subst h; stut hpc
+      · simp at h
+    · next q c m p i hpc =>
+      split at h
+      · simp at h; subst h; stut hpc
+      · simp at h
+    · simp at h
+  | rNext f n x =>
+    simp only [step] at h
+    split at h
+    · next q c need h0 hpc =>
+      split at h
+      · split at h
+        · simp at h; subst h
+          have hT := ATrans.fail (count := count) (queues := queues) (abs s) f q c need (by simp [abs, hpc])
+          simpa [abs, sig_upd, sig_afterWake] using hT
+        · simp at h; subst h; stut hpc
+      · simp at h
+    · simp at h
+  | xchgTail f qi old new =>
+    simp only [step] at h
+    split at h
+    · next q c m hpc =>
+      split at h
+      · simp at h; subst h; stut hpc
+      · simp at h
+    · simp at h
+  | rHead f qi n =>
+    simp only [step] at h
+    split at h
+    · next q c need hpc =>
+      split at h
+      · simp at h; subst h; stut hpc
+      · simp at h
+    · simp at h
+  | wHead f qi n =>
+    simp only [step] at h
+    split at h
+    · next q c need h0 x0 hpc =>
+      split at h
+      · split at h
+        · next e he =>
+          split at h
+          · next hg =>
+            simp at h; subst h
+            have hT := ATrans.pop (count := count) (queues := queues) (abs s) f e.fiber q c need e.c
+              (by simp [abs, hpc]) (by simp [abs, hg])
+            simpa [abs, sig_upd] using hT
+          · simp at h
+        · simp at h
+      · simp at h
+    · simp at h
+  | retWait f k serial =>
+    simp only [step] at h
+    split at h
+    · split at h
+      · next c hpc =>
+        split at h
+        · simp at h; subst h
+          have hT := ATrans.ret (count := count) (queues := queues) (abs s) f (by simp [abs, hpc])
+          simpa [abs, sig_upd] using hT
+        · simp at h
+      · next c hpc =>
+        split at h
+        · simp at h
+        · simp at h; subst h
+          have hT := ATrans.ret (count := count) (queues := queues) (abs s) f (by simp [abs, hpc])
+          simpa [abs, sig_upd] using hT
+      · simp at h
+    · simp at h
+
+/-! ## 4. invariants of every variant of the code -/
+
+def pendW (s : Sig) : Nat := if s.kind = .pend then 1 else 0
+def needW (s : Sig) : Nat := if s.kind = .pre ∨ s.kind = .post then s.need else 0
+def waking (s : Sig) : Prop := s.kind = .pre ∨ s.kind = .post
+
+theorem pendW_le (s : Sig) : pendW s ≤ 1 := by unfold pendW; split <;> omega
+
+theorem tot_upd_same (w : Sig → Nat) (sg : Nat → Sig) (f : Nat) (v : Sig) (l : List Nat)
+    (h : w v = w (sg f)) : tot (fun x => w (upd sg f v x)) l = tot (fun x => w (sg x)) l := by
+  apply tot_congr
+  intro x _
+  by_cases hx : x = f
+  · subst hx; simp [h]
+  · simp [upd_other _ _ _ _ hx]
+
+theorem tot_upd_mem (w : Sig → Nat) (sg : Nat → Sig) (f : Nat) (v : Sig) (l : List Nat)
+    (hn : l.Nodup) (hf : f ∈ l) :
+    tot (fun x => w (upd sg f v x)) l + w (sg f) = tot (fun x => w (sg x)) l + w v := by
+  have := tot_change (g := fun x => w (sg x)) (g' := fun x => w (upd sg f v x)) (l := l) (f := f)
+    (by intro x hx; simp [upd_other _ _ _ _ hx]) hn hf
+  simpa using this
+
+structure InvA (count : Nat) (a : Abs) : Prop where
+  nodup : a.members.Nodup
+  len : a.members.length ≤ count
+  mem : ∀ x, (a.sg x).kind ≠ .idle → x ∈ a.members
+  ser : a.serials = a.counter / count
+  acct : tot (fun x => pendW (a.sg x)) a.members
+          = a.counter % count + tot (fun x => needW (a.sg x)) a.members
+  preNeed : ∀ x, (a.sg x).kind = .pre → 1 ≤ (a.sg x).need ∨ count = 1
+  needLe : ∀ x, needW (a.sg x) ≤ count - 1
+  single : ∀ x y, waking (a.sg x) → waking (a.sg y) → x = y
+
+theorem aw_cases (q c need : Nat) :
+    (need = 0 ∧ aw q c need = ⟨.done, c, 0, 0⟩) ∨ (need ≠ 0 ∧ aw q c need = ⟨.pre, c, q, need⟩) := by
+  unfold aw; split
+  · left; exact ⟨‹_›, rfl⟩
+  · right; exact ⟨‹_›, rfl⟩
+
+theorem pw_upd {P : Sig → Prop} {sg : Nat → Sig} {f : Nat} {v : Sig}
+    (h : ∀ x, P (sg x)) (hv : P v) : ∀ x, P (upd sg f v x) := by
+  intro x; by_cases hx : x = f
+  · subst hx; simpa using hv
+  · simpa [upd_other _ _ _ _ hx] using h x
+
+theorem mem_upd {sg : Nat → Sig} {f : Nat} {v : Sig} {l : List Nat}
+    (h : ∀ x, (sg x).kind ≠ .idle → x ∈ l) (hf : v.kind ≠ .idle → f ∈ l) :
+    ∀ x, (upd sg f v x).kind ≠ .idle → x ∈ l := by
+  intro x hx; by_cases hxf : x = f
+  · subst hxf; exact hf (by simpa using hx)
+  · exact h x (by simpa [upd_other _ _ _ _ hxf] using hx)
+
+theorem single_upd_nonwaking {sg : Nat → Sig} {f : Nat} {v : Sig}
+    (hs : ∀ x y, waking (sg x) → waking (sg y) → x = y) (hv : ¬ waking v) :
+    ∀ x y, waking (upd sg f v x) → waking (upd sg f v y) → x = y := by
+  intro x y hx hy
+  have hx' : waking (sg x) := by
+    by_cases hxf : x = f
+    · subst hxf; simp at hx; exact absurd hx hv
+    · simpa [upd_other _ _ _ _ hxf] using hx
+  have hy' : waking (sg y) := by
+    by_cases hyf : y = f
+    · subst hyf; simp at hy; exact absurd hy hv
+    · simpa [upd_other _ _ _ _ hyf] using hy
+  exact hs x y hx' hy'
+
+theorem single_upd_waking {sg : Nat → Sig} {f : Nat} {v : Sig}
+    (hs : ∀ x y, waking (sg x) → waking (sg y) → x = y) (hf : waking (sg f)) :
+    ∀ x y, waking (upd sg f v x) → waking (upd sg f v y) → x = y := by
+  have key : ∀ x, waking (upd sg f v x) → x = f := by
+    intro x hx
+    by_cases hxf : x = f
+    · exact hxf
+    · exact hs x f (by simpa [upd_other _ _ _ _ hxf] using hx) hf
+  intro x y hx hy
+  rw [key x hx, key y hy]
+
+theorem single_upd_new {sg : Nat → Sig} {f : Nat} {v : Sig}
+    (hno : ∀ y, y ≠ f → ¬ waking (sg y)) :
+    ∀ x y, waking (upd sg f v x) → waking (upd sg f v y) → x = y := by
+  have key : ∀ x, waking (upd sg f v x) → x = f := by
+    intro x hx
+    by_cases hxf : x = f
+    · exact hxf
+    · exact absurd (by simpa [upd_other _ _ _ _ hxf] using hx) (hno x hxf)
+  intro x y hx hy
+  rw [key x hx, key y hy]
+
+theorem InvA.step {count queues : Nat} (hc : 0 < count) {a a' : Abs} (hI : InvA count a)
+    (ht : ATrans count queues a a') : InvA count a' := by
+  cases ht with
+  | stutter => exact hI
+  | call f h hm =>
+    have hp : pendW ⟨.called, 0, 0, 0⟩ = pendW (a.sg f) := by simp [pendW, h]
+    have hn : needW ⟨.called, 0, 0, 0⟩ = needW (a.sg f) := by simp [needW, h]
+    refine ⟨hI.nodup, hI.len, mem_upd hI.mem (fun _ => hm), hI.ser, ?_,
+      pw_upd (P := fun s => s.kind = .pre → 1 ≤ s.need ∨ count = 1) hI.preNeed (by simp),
+      pw_upd (P := fun s => needW s ≤ count - 1) hI.needLe (by simp [needW]),
+      single_upd_nonwaking hI.single (by simp [waking])⟩
+    show tot (fun x => pendW (upd a.sg f _ x)) a.members = _ + tot (fun x => needW (upd a.sg f _ x)) a.members
+    rw [tot_upd_same pendW _ _ _ _ hp, tot_upd_same needW _ _ _ _ hn]; exact hI.acct
+  | join f h hm hl =>
+    have hp : pendW ⟨.called, 0, 0, 0⟩ = pendW (a.sg f) := by simp [pendW, h]
+    have hn : needW ⟨.called, 0, 0, 0⟩ = needW (a.sg f) := by simp [needW, h]
+    refine ⟨List.nodup_cons.mpr ⟨hm, hI.nodup⟩, by simp only [List.length_cons]; omega, ?_, hI.ser, ?_,
+      pw_upd (P := fun s => s.kind = .pre → 1 ≤ s.need ∨ count = 1) hI.preNeed (by simp),
+      pw_upd (P := fun s => needW s ≤ count - 1) hI.needLe (by simp [needW]),
+      single_upd_nonwaking hI.single (by simp [waking])⟩
+    · exact mem_upd (fun x hx => List.mem_cons_of_mem _ (hI.mem x hx)) (fun _ => by simp)
+    · show tot (fun x => pendW (upd a.sg f _ x)) (f :: a.members)
+        = _ + tot (fun x => needW (upd a.sg f _ x)) (f :: a.members)
+      simp only [tot_cons, upd_same]
+      rw [tot_upd_same pendW _ _ _ _ hp, tot_upd_same needW _ _ _ _ hn]
+      have := hI.acct
+      have e1 : pendW ⟨.called, 0, 0, 0⟩ = 0 := rfl
+      have e2 : needW ⟨.called, 0, 0, 0⟩ = 0 := rfl
+      rw [e1, e2]; omega
+  | arrive f h hmod =>
+    have hfm : f ∈ a.members := hI.mem f (by simp [h])
+    have hn : needW ⟨.pend, a.counter / count, a.counter / count % queues, 0⟩ = needW (a.sg f) := by
+      simp [needW, h]
+    have hp := tot_upd_mem pendW a.sg f ⟨.pend, a.counter / count, a.counter / count % queues, 0⟩
+      a.members hI.nodup hfm
+    have har := succ_not_dvd hc hmod
+    refine ⟨hI.nodup, hI.len, mem_upd hI.mem (fun _ => hfm), ?_, ?_,
+      pw_upd (P := fun s => s.kind = .pre → 1 ≤ s.need ∨ count = 1) hI.preNeed (by simp),
+      pw_upd (P := fun s => needW s ≤ count - 1) hI.needLe (by simp [needW]),
+      single_upd_nonwaking hI.single (by simp [waking])⟩
+    · show a.serials = (a.counter + 1) / count
+      rw [har.2]; exact hI.ser
+    · show tot (fun x => pendW (upd a.sg f _ x)) a.members
+        = (a.counter + 1) % count + tot (fun x => needW (upd a.sg f _ x)) a.members
+      rw [tot_upd_same needW _ _ _ _ hn, har.1]
+      have := hI.acct
+      have e1 : pendW (a.sg f) = 0 := by simp [pendW, h]
+      have e2 : pendW ⟨.pend, a.counter / count, a.counter / count % queues, 0⟩ = 1 := rfl
+      rw [e1, e2] at hp
+      omega
+  | serial f h hmod =>
+    have hfm : f ∈ a.members := hI.mem f (by simp [h])
+    have hp : pendW ⟨.pre, a.counter / count, a.counter / count % queues, count - 1⟩ = pendW (a.sg f) := by
+      simp [pendW, h]
+    have hn := tot_upd_mem needW a.sg f ⟨.pre, a.counter / count, a.counter / count % queues, count - 1⟩
+      a.members hI.nodup hfm
+    have har := succ_dvd hc hmod
+    have hacct := hI.acct
+    refine ⟨hI.nodup, hI.len, mem_upd hI.mem (fun _ => hfm), ?_, ?_,
+      pw_upd (P := fun s => s.kind = .pre → 1 ≤ s.need ∨ count = 1) hI.preNeed (by simp; omega),
+      pw_upd (P := fun s => needW s ≤ count - 1) hI.needLe (by simp [needW]),
+      single_upd_new ?_⟩
+    · show a.serials + 1 = (a.counter + 1) / count
+      rw [har.2.1, hI.ser]
+    · show tot (fun x => pendW (upd a.sg f _ x)) a.members
+        = (a.counter + 1) % count + tot (fun x => needW (upd a.sg f _ x)) a.members
+      rw [tot_upd_same pendW _ _ _ _ hp, har.2.2]
+      have e1 : needW (a.sg f) = 0 := by simp [needW, h]
+      have e2 : needW ⟨.pre, a.counter / count, a.counter / count % queues, count - 1⟩ = count - 1 := by
+        simp [needW]
+      rw [e1, e2] at hn
+      omega
+    · -- a second fiber inside the wake loop: impossible by counting the participants
+      intro y hy hw
+      have hym : y ∈ a.members := hI.mem y (by rcases hw with e | e <;> simp [e])
+      have hpy : pendW (a.sg y) = 0 := by rcases hw with e | e <;> simp [pendW, e]
+      have hpf : pendW (a.sg f) = 0 := by simp [pendW, h]
+      have := tot_add_two_le (g := fun x => pendW (a.sg x)) (fun x _ => pendW_le _) hym hfm hy hpy hpf
+      have := hI.len
+      omega
+  | fail f q c need h =>
+    have hfm : f ∈ a.members := hI.mem f (by simp [h])
+    have hwf : waking (a.sg f) := by simp [waking, h]
+    have hp : pendW (aw q c need) = pendW (a.sg f) := by
+      rcases aw_cases q c need with ⟨_, e⟩ | ⟨_, e⟩ <;> simp [pendW, h, e]
+    have hn : needW (aw q c need) = needW (a.sg f) := by
+      rcases aw_cases q c need with ⟨e0, e⟩ | ⟨_, e⟩
+      · rw [e, h]; simp [needW, e0]
+      · rw [e, h]; try simp [needW]
+    refine ⟨hI.nodup, hI.len, mem_upd hI.mem (fun _ => hfm), hI.ser, ?_,
+      pw_upd (P := fun s => s.kind = .pre → 1 ≤ s.need ∨ count = 1) hI.preNeed ?_,
+      pw_upd (P := fun s => needW s ≤ count - 1) hI.needLe (by rw [hn]; exact hI.needLe f),
+      single_upd_waking hI.single hwf⟩
+    · show tot (fun x => pendW (upd a.sg f _ x)) a.members = _ + tot (fun x => needW (upd a.sg f _ x)) a.members
+      rw [tot_upd_same pendW _ _ _ _ hp, tot_upd_same needW _ _ _ _ hn]; exact hI.acct
+    · rcases aw_cases q c need with ⟨_, e⟩ | ⟨e0, e⟩
+      · rw [e]; simp
+      · rw [e]; simp; omega
+  | wake f q c need h =>
+    have hfm : f ∈ a.members := hI.mem f (by simp [h])
+    have hwf : waking (a.sg f) := by simp [waking, h]
+    have hp : pendW (aw q c need) = pendW (a.sg f) := by
+      rcases aw_cases q c need with ⟨_, e⟩ | ⟨_, e⟩ <;> simp [pendW, h, e]
+    have hn : needW (aw q c need) = needW (a.sg f) := by
+      rcases aw_cases q c need with ⟨e0, e⟩ | ⟨_, e⟩
+      · rw [e, h]; simp [needW, e0]
+      · rw [e, h]; try simp [needW]
+    refine ⟨hI.nodup, hI.len, mem_upd hI.mem (fun _ => hfm), hI.ser, ?_,
+      pw_upd (P := fun s => s.kind = .pre → 1 ≤ s.need ∨ count = 1) hI.preNeed ?_,
+      pw_upd (P := fun s => needW s ≤ count - 1) hI.needLe (by rw [hn]; exact hI.needLe f),
+      single_upd_waking hI.single hwf⟩
+    · show tot (fun x => pendW (upd a.sg f _ x)) a.members = _ + tot (fun x => needW (upd a.sg f _ x)) a.members
+      rw [tot_upd_same pendW _ _ _ _ hp, tot_upd_same needW _ _ _ _ hn]; exact hI.acct
+    · rcases aw_cases q c need with ⟨_, e⟩ | ⟨e0, e⟩
+      · rw [e]; simp
+      · rw [e]; simp; omega
+  | ret f h =>
+    have hp : pendW ⟨.idle, 0, 0, 0⟩ = pendW (a.sg f) := by rcases h with e | e <;> simp [pendW, e]
+    have hn : needW ⟨.idle, 0, 0, 0⟩ = needW (a.sg f) := by rcases h with e | e <;> simp [needW, e]
+    refine ⟨hI.nodup, hI.len, mem_upd hI.mem (by simp), hI.ser, ?_,
+      pw_upd (P := fun s => s.kind = .pre → 1 ≤ s.need ∨ count = 1) hI.preNeed (by simp),
+      pw_upd (P := fun s => needW s ≤ count - 1) hI.needLe (by simp [needW]),
+      single_upd_nonwaking hI.single (by simp [waking])⟩
+    show tot (fun x => pendW (upd a.sg f _ x)) a.members = _ + tot (fun x => needW (upd a.sg f _ x)) a.members
+    rw [tot_upd_same pendW _ _ _ _ hp, tot_upd_same needW _ _ _ _ hn]; exact hI.acct
+  | pop f g q c need c' hf hg =>
+    have hfm : f ∈ a.members := hI.mem f (by simp [hf])
+    have hgm : g ∈ a.members := hI.mem g (by simp [hg])
+    have hfg : f ≠ g := by intro e; rw [e, hg] at hf; simp at hf
+    have hwf : waking (a.sg f) := by simp [waking, hf]
+    -- the serial fiber still has a pop to make: otherwise count = 1 and nobody can be pending
+    have hneed : 1 ≤ need := by
+      rcases hI.preNeed f (by simp [hf]) with h1 | h1
+      · simpa [hf] using h1
+      · exfalso
+        have hz : tot (fun x => needW (a.sg x)) a.members = 0 :=
+          tot_eq_zero (fun x _ => by have := hI.needLe x; omega)
+        have h1g : pendW (a.sg g) ≤ tot (fun x => pendW (a.sg x)) a.members :=
+          le_tot (g := fun x => pendW (a.sg x)) hgm
+        have := hI.acct
+        have hm1 : a.counter % count = 0 := by rw [h1]; exact Nat.mod_one _
+        have e1 : pendW (a.sg g) = 1 := by simp [pendW, hg]
+        omega
+    -- bookkeeping of the two sums
+    have hp1 := tot_upd_mem pendW a.sg g ⟨.woken, c', 0, 0⟩ a.members hI.nodup hgm
+    have hp2 : tot (fun x => pendW (upd (upd a.sg g ⟨.woken, c', 0, 0⟩) f ⟨.post, c, q, need - 1⟩ x)) a.members
+        = tot (fun x => pendW (upd a.sg g ⟨.woken, c', 0, 0⟩ x)) a.members :=
+      tot_upd_same pendW _ _ _ _ (by simp [pendW, upd_other _ _ _ _ hfg, hf])
+    have hn1 : tot (fun x => needW (upd a.sg g ⟨.woken, c', 0, 0⟩ x)) a.members
+        = tot (fun x => needW (a.sg x)) a.members :=
+      tot_upd_same needW _ _ _ _ (by simp [needW, hg])
+    have hn2 := tot_upd_mem needW (upd a.sg g ⟨.woken, c', 0, 0⟩) f ⟨.post, c, q, need - 1⟩
+      a.members hI.nodup hfm
+    have e1 : pendW (a.sg g) = 1 := by simp [pendW, hg]
+    have e2 : pendW ⟨.woken, c', 0, 0⟩ = 0 := rfl
+    have e3 : needW (upd a.sg g ⟨.woken, c', 0, 0⟩ f) = need := by
+      simp [needW, upd_other _ _ _ _ hfg, hf]
+    have e4 : needW ⟨.post, c, q, need - 1⟩ = need - 1 := by simp [needW]
+    rw [e1, e2] at hp1
+    rw [e3, e4] at hn2
+    have hacct := hI.acct
+    refine ⟨hI.nodup, hI.len, mem_upd (mem_upd hI.mem (fun _ => hgm)) (fun _ => hfm), hI.ser, ?_,
+      pw_upd (P := fun s => s.kind = .pre → 1 ≤ s.need ∨ count = 1)
+        (pw_upd (P := fun s => s.kind = .pre → 1 ≤ s.need ∨ count = 1) hI.preNeed (by simp)) (by simp),
+      pw_upd (P := fun s => needW s ≤ count - 1)
+        (pw_upd (P := fun s => needW s ≤ count - 1) hI.needLe (by simp [needW])) ?_,
+      single_upd_waking (single_upd_nonwaking hI.single (by simp [waking]))
+        (by simp [waking, upd_other _ _ _ _ hfg, hf])⟩
+    · show tot (fun x => pendW (upd (upd a.sg g _) f _ x)) a.members
+        = a.counter % count + tot (fun x => needW (upd (upd a.sg g _) f _ x)) a.members
+      rw [hp2]; rw [hn1] at hn2; omega
+    · have := hI.needLe f
+      simp [needW, hf] at this ⊢; omega
+
+
+theorem InvA.init (count : Nat) (nodeOf : Nat → Nat) : InvA count (abs (init nodeOf)) := by
+  refine ⟨by simp [abs, Barrier.init], by simp [abs, Barrier.init], ?_, by simp [abs, Barrier.init], by simp [abs, Barrier.init],
+    ?_, ?_, ?_⟩
+  · intro x hx; simp [abs, Barrier.init] at hx
+  · intro x hx; simp [abs, Barrier.init] at hx
+  · intro x; simp [abs, Barrier.init, needW]
+  · intro x y hx; simp [abs, Barrier.init, waking] at hx
+
+/-! ## 5. rounds do not mix: invariants under `queues = 2 ∨ count ≤ 2` -/
+
+def pendAtW (m : Nat) (s : Sig) : Nat := if s.kind = .pend ∧ s.c = m then 1 else 0
+
+theorem pendAtW_le_pendW (m : Nat) (s : Sig) : pendAtW m s ≤ pendW s := by
+  unfold pendAtW pendW; split
+  · next h => simp [h.1]
+  · omega
+
+/-- relation between a fiber's signature, its own round `r` and the counter round `M`
+    (= number of completed rounds) -/
+def fiberOk (queues M : Nat) (isMember : Prop) (r : Nat) (s : Sig) : Prop :=
+  match s.kind with
+  | .idle => (isMember → r = M) ∧ (¬ isMember → r = 0)
+  | .called => (isMember → r = M) ∧ (¬ isMember → r = 0)
+  | .pend => (s.c = M ∨ s.c + 1 = M) ∧ r = s.c + 1 ∧ s.q = s.c % queues
+  | .woken => s.c + 1 = M ∧ r = M
+  | .done => s.c + 1 = M ∧ r = M
+  | .pre => s.c + 1 = M ∧ r = M ∧ s.q = s.c % queues
+  | .post => s.c + 1 = M ∧ r = M ∧ s.q = s.c % queues
+
+structure InvK (count queues : Nat) (a : Abs) : Prop where
+  full : 1 ≤ a.counter / count → a.members.length = count
+  fib : ∀ x, fiberOk queues (a.counter / count) (x ∈ a.members) (a.rnd x) (a.sg x)
+  cur : tot (fun x => pendAtW (a.counter / count) (a.sg x)) a.members = a.counter % count
+  past : ∀ k, 1 ≤ k → k ≤ a.counter / count → a.entered k = count ∧ a.told k = 1
+  now : a.entered (a.counter / count + 1) = a.counter % count ∧ a.told (a.counter / count + 1) = 0
+  future : ∀ k, a.counter / count + 1 < k → a.entered k = 0 ∧ a.told k = 0
+
+theorem fib_upd {queues M : Nat} {mem : Nat → Prop} {rnd : Nat → Nat} {sg : Nat → Sig} {f : Nat} {v : Sig}
+    (h : ∀ x, fiberOk queues M (mem x) (rnd x) (sg x)) (hv : fiberOk queues M (mem f) (rnd f) v) :
+    ∀ x, fiberOk queues M (mem x) (rnd x) (upd sg f v x) := by
+  intro x; by_cases hx : x = f
+  · subst hx; simpa using hv
+  · simpa [upd_other _ _ _ _ hx] using h x
+
+theorem InvK.step {count queues : Nat} (hc : 0 < count) (H : queues = 2 ∨ count ≤ 2)
+    {a a' : Abs} (hA : InvA count a) (hK : InvK count queues a)
+    (ht : ATrans count queues a a') : InvK count queues a' := by
+  cases ht with
+  | stutter => exact hK
+  | call f h hm =>
+    have hf := hK.fib f
+    refine ⟨hK.full, fib_upd hK.fib ?_, ?_, hK.past, hK.now, hK.future⟩
+    · simp [fiberOk, h] at hf ⊢; exact hf
+    · show tot (fun x => pendAtW _ (upd a.sg f _ x)) a.members = _
+      rw [tot_upd_same (pendAtW _) _ _ _ _ (by simp [pendAtW, h])]; exact hK.cur
+  | join f h hm hl =>
+    have hf := hK.fib f
+    have hM : a.counter / count = 0 := by
+      by_cases h1 : 1 ≤ a.counter / count
+      · have := hK.full h1; omega
+      · exact Nat.lt_one_iff.mp (Nat.lt_of_not_ge h1)
+    refine ⟨?_, ?_, ?_, hK.past, hK.now, hK.future⟩
+    · intro h1; show (f :: a.members).length = count
+      exfalso
+      have h1' : 1 ≤ a.counter / count := h1
+      rw [hM] at h1'; omega
+    · intro x; show fiberOk queues (a.counter / count) (x ∈ f :: a.members) (a.rnd x) (upd a.sg f _ x)
+      by_cases hx : x = f
+      · subst hx
+        simp [fiberOk, h, hm] at hf
+        simp [fiberOk, hf, hM]
+      · have := hK.fib x
+        simpa [upd_other _ _ _ _ hx, hx] using this
+    · show tot (fun x => pendAtW _ (upd a.sg f _ x)) (f :: a.members) = _
+      simp only [tot_cons, upd_same]
+      rw [tot_upd_same (pendAtW _) _ _ _ _ (by simp [pendAtW, h])]
+      have := hK.cur
+      have e1 : pendAtW (a.counter / count) ⟨.called, 0, 0, 0⟩ = 0 := by simp [pendAtW]
+      rw [e1]; omega
+  | arrive f h hmod =>
+    have hfm : f ∈ a.members := hA.mem f (by simp [h])
+    have hf := hK.fib f
+    simp [fiberOk, h, hfm] at hf
+    have har := succ_not_dvd hc hmod
+    have hp := tot_upd_mem (pendAtW (a.counter / count)) a.sg f
+      ⟨.pend, a.counter / count, a.counter / count % queues, 0⟩ a.members hA.nodup hfm
+    have e1 : pendAtW (a.counter / count) (a.sg f) = 0 := by simp [pendAtW, h]
+    have e2 : pendAtW (a.counter / count) ⟨.pend, a.counter / count, a.counter / count % queues, 0⟩ = 1 := by
+      simp [pendAtW]
+    rw [e1, e2] at hp
+    refine ⟨?_, ?_, ?_, ?_, ?_, ?_⟩
+    · show 1 ≤ (a.counter + 1) / count → _
+      rw [har.2]; exact hK.full
+    · intro x
+      show fiberOk queues ((a.counter + 1) / count) (x ∈ a.members) (upd a.rnd f (a.rnd f + 1) x) (upd a.sg f _ x)
+      rw [har.2]
+      by_cases hx : x = f
+      · subst hx; simp [fiberOk, hf]
+      · simpa [upd_other _ _ _ _ hx] using hK.fib x
+    · show tot (fun x => pendAtW ((a.counter + 1) / count) (upd a.sg f _ x)) a.members = (a.counter + 1) % count
+      rw [har.2, har.1]; have := hK.cur; omega
+    · intro k hk1 hk2
+      show upd a.entered (a.rnd f + 1) _ k = count ∧ a.told k = 1
+      have hk2' : k ≤ a.counter / count := by rw [← har.2]; exact hk2
+      rw [upd_other _ _ _ _ (by omega)]
+      exact hK.past k hk1 hk2'
+    · show upd a.entered (a.rnd f + 1) _ ((a.counter + 1) / count + 1) = (a.counter + 1) % count ∧
+        a.told ((a.counter + 1) / count + 1) = 0
+      rw [har.2, har.1, hf]
+      have := hK.now
+      simp [this.1, this.2]
+    · intro k hk
+      show upd a.entered (a.rnd f + 1) _ k = 0 ∧ a.told k = 0
+      have hk' : a.counter / count + 1 < k := by rw [← har.2]; exact hk
+      rw [upd_other _ _ _ _ (by omega)]
+      exact hK.future k hk'
+  | fail f q c need h =>
+    have hf := hK.fib f
+    refine ⟨hK.full, fib_upd hK.fib ?_, ?_, hK.past, hK.now, hK.future⟩
+    · rcases aw_cases q c need with ⟨_, e⟩ | ⟨_, e⟩
+      · rw [e]; simp [fiberOk, h] at hf ⊢; exact ⟨hf.1, hf.2.1⟩
+      · rw [e]; simp [fiberOk, h] at hf ⊢; exact hf
+    · show tot (fun x => pendAtW _ (upd a.sg f _ x)) a.members = _
+      rw [tot_upd_same (pendAtW _) _ _ _ _ (by
+        rcases aw_cases q c need with ⟨_, e⟩ | ⟨_, e⟩ <;> rw [e] <;> simp [pendAtW, h])]
+      exact hK.cur
+  | wake f q c need h =>
+    have hf := hK.fib f
+    refine ⟨hK.full, fib_upd hK.fib ?_, ?_, hK.past, hK.now, hK.future⟩
+    · rcases aw_cases q c need with ⟨_, e⟩ | ⟨_, e⟩
+      · rw [e]; simp [fiberOk, h] at hf ⊢; exact ⟨hf.1, hf.2.1⟩
+      · rw [e]; simp [fiberOk, h] at hf ⊢; exact hf
+    · show tot (fun x => pendAtW _ (upd a.sg f _ x)) a.members = _
+      rw [tot_upd_same (pendAtW _) _ _ _ _ (by
+        rcases aw_cases q c need with ⟨_, e⟩ | ⟨_, e⟩ <;> rw [e] <;> simp [pendAtW, h])]
+      exact hK.cur
+  | ret f h =>
+    have hf := hK.fib f
+    have hfm : f ∈ a.members := hA.mem f (by rcases h with e | e <;> simp [e])
+    refine ⟨hK.full, fib_upd hK.fib ?_, ?_, hK.past, hK.now, hK.future⟩
+    · rcases h with e | e <;> simp [fiberOk, e, hfm] at hf ⊢ <;> exact hf.2
+    · show tot (fun x => pendAtW _ (upd a.sg f _ x)) a.members = _
+      rw [tot_upd_same (pendAtW _) _ _ _ _ (by rcases h with e | e <;> simp [pendAtW, e])]
+      exact hK.cur
+  | serial f h hmod =>
+    have hfm : f ∈ a.members := hA.mem f (by simp [h])
+    have hf := hK.fib f
+    simp [fiberOk, h, hfm] at hf
+    have har := succ_dvd hc hmod
+    have hacct := hA.acct
+    have hpf : pendW (a.sg f) = 0 := by simp [pendW, h]
+    have hle := tot_add_one_le (g := fun x => pendW (a.sg x)) (fun x _ => pendW_le _) hfm hpf
+    have hlen := hA.len
+    -- all the other participants are pending, nobody is being woken, everybody has joined
+    have hP : tot (fun x => pendW (a.sg x)) a.members = count - 1 := by omega
+    have hlen' : a.members.length = count := by omega
+    have hall := all_count_of_tot (g := fun x => pendW (a.sg x)) (fun x _ => pendW_le _) hfm hpf (by omega)
+    -- and all of them arrived in the round that is being completed
+    have hcur := hK.cur
+    have hpt := eq_of_tot_eq (g := fun x => pendAtW (a.counter / count) (a.sg x))
+      (g' := fun x => pendW (a.sg x)) (l := a.members) (fun x _ => pendAtW_le_pendW _ _) (by omega)
+    have hothers : ∀ x ∈ a.members, x ≠ f → (a.sg x).kind = .pend ∧ (a.sg x).c = a.counter / count := by
+      intro x hx hxf
+      have h1 : pendW (a.sg x) = 1 := hall x hx hxf
+      have h2 : pendAtW (a.counter / count) (a.sg x) = pendW (a.sg x) := hpt x hx
+      rw [h1] at h2
+      unfold pendAtW at h2
+      split at h2
+      · assumption
+      · omega
+    refine ⟨fun _ => hlen', ?_, ?_, ?_, ?_, ?_⟩
+    · intro x
+      show fiberOk queues ((a.counter + 1) / count) (x ∈ a.members) (upd a.rnd f (a.rnd f + 1) x) (upd a.sg f _ x)
+      rw [har.2.1]
+      by_cases hx : x = f
+      · subst hx; simp [fiberOk, hf]
+      · rw [upd_other _ _ _ _ hx, upd_other _ _ _ _ hx]
+        have hfx := hK.fib x
+        by_cases hxm : x ∈ a.members
+        · obtain ⟨hk, hcx⟩ := hothers x hxm hx
+          simp [fiberOk, hk] at hfx ⊢
+          refine ⟨Or.inr hcx, hfx.2.1, hfx.2.2⟩
+        · have hk : (a.sg x).kind = .idle := by
+            apply Classical.byContradiction; intro hne; exact hxm (hA.mem x hne)
+          simp [fiberOk, hk, hxm] at hfx ⊢
+          exact hfx
+    · show tot (fun x => pendAtW ((a.counter + 1) / count) (upd a.sg f _ x)) a.members = (a.counter + 1) % count
+      rw [har.2.1, har.2.2]
+      apply tot_eq_zero
+      intro x hx
+      by_cases hxf : x = f
+      · subst hxf; simp [pendAtW]
+      · rw [upd_other _ _ _ _ hxf]; simp [pendAtW, (hothers x hx hxf).2]
+    · intro k hk1 hk2
+      show upd a.entered (a.rnd f + 1) _ k = count ∧ upd a.told (a.rnd f + 1) _ k = 1
+      have hk2' : k ≤ a.counter / count + 1 := by rw [← har.2.1]; exact hk2
+      rw [hf]
+      by_cases hk : k = a.counter / count + 1
+      · subst hk
+        have := hK.now
+        simp only [upd_same]
+        omega
+      · rw [upd_other _ _ _ _ hk, upd_other _ _ _ _ hk]
+        exact hK.past k hk1 (by omega)
+    · show upd a.entered (a.rnd f + 1) _ ((a.counter + 1) / count + 1) = (a.counter + 1) % count ∧
+        upd a.told (a.rnd f + 1) _ ((a.counter + 1) / count + 1) = 0
+      rw [har.2.1, har.2.2, hf, upd_other _ _ _ _ (by omega), upd_other _ _ _ _ (by omega)]
+      exact hK.future _ (by omega)
+    · intro k hk
+      show upd a.entered (a.rnd f + 1) _ k = 0 ∧ upd a.told (a.rnd f + 1) _ k = 0
+      have hk' : a.counter / count + 1 + 1 < k := by rw [← har.2.1]; exact hk
+      rw [hf, upd_other _ _ _ _ (by omega), upd_other _ _ _ _ (by omega)]
+      exact hK.future _ (by omega)
+  | pop f g q c need c' hf hg =>
+    have hfm : f ∈ a.members := hA.mem f (by simp [hf])
+    have hgm : g ∈ a.members := hA.mem g (by simp [hg])
+    have hfg : f ≠ g := by intro e; rw [e, hg] at hf; simp at hf
+    have hkf := hK.fib f
+    have hkg := hK.fib g
+    simp [fiberOk, hf] at hkf
+    simp [fiberOk, hg] at hkg
+    -- the popped entry belongs to the round of the serial fiber that pops it
+    have hround : c' + 1 = a.counter / count := by
+      rcases hkg.1 with hcm | hcm
+      · exfalso
+        rcases H with H | H
+        · -- two queues: a current-round entry sits in the other queue
+          have := hkf.2.2; have := hkg.2.2; have := hkf.1
+          subst H; omega
+        · -- at most two participants: nobody of the current round can be pending
+          have hg1 : pendAtW (a.counter / count) (a.sg g) ≤ tot (fun x => pendAtW (a.counter / count) (a.sg x)) a.members :=
+            le_tot (g := fun x => pendAtW (a.counter / count) (a.sg x)) hgm
+          have e1 : pendAtW (a.counter / count) (a.sg g) = 1 := by simp [pendAtW, hg, hcm]
+          have hcur := hK.cur
+          have hn1 : needW (a.sg f) ≤ tot (fun x => needW (a.sg x)) a.members :=
+            le_tot (g := fun x => needW (a.sg x)) hfm
+          have e2 : needW (a.sg f) = need := by simp [needW, hf]
+          have hpf : pendW (a.sg f) = 0 := by simp [pendW, hf]
+          have hle := tot_add_one_le (g := fun x => pendW (a.sg x)) (fun x _ => pendW_le _) hfm hpf
+          have hacct := hA.acct
+          have hlen := hA.len
+          rcases hA.preNeed f (by simp [hf]) with h1 | h1
+          · simp [hf] at h1; omega
+          · have : a.counter % count = 0 := by rw [h1]; exact Nat.mod_one _
+            omega
+      · exact hcm
+    refine ⟨hK.full, fib_upd (fib_upd hK.fib ?_) ?_, ?_, hK.past, hK.now, hK.future⟩
+    · simp [fiberOk]; exact ⟨hround, by omega⟩
+    · simp [fiberOk]; exact hkf
+    · show tot (fun x => pendAtW _ (upd (upd a.sg g _) f _ x)) a.members = _
+      rw [tot_upd_same (pendAtW _) _ _ _ _ (by simp [pendAtW, upd_other _ _ _ _ hfg, hf]),
+        tot_upd_same (pendAtW _) _ _ _ _ (by simp [pendAtW, hg]; omega)]
+      exact hK.cur
+
+
+theorem InvK.init (count queues : Nat) (nodeOf : Nat → Nat) : InvK count queues (abs (init nodeOf)) := by
+  refine ⟨?_, ?_, ?_, ?_, ?_, ?_⟩
+  · intro h; simp [abs, Barrier.init] at h
+  · intro x; simp [abs, Barrier.init, fiberOk]
+  · simp [abs, Barrier.init]
+  · intro k h1 h2; simp [abs, Barrier.init] at h2; omega
+  · simp [abs, Barrier.init]
+  · intro k _; simp [abs, Barrier.init]
+
+/-! ## 6. the invariants along every accepted trace -/
+
+theorem invA_of_run {count queues : Nat} {nodeOf : Nat → Nat} (hc : 0 < count)
+    {es : List Ev} {s : St} (h : (sys count queues nodeOf).run es = some s) : InvA count (abs s) :=
+  Sys.inv_of_run (sys count queues nodeOf) (fun s => InvA count (abs s))
+    (InvA.init count nodeOf)
+    (fun _ _ _ hI hst => InvA.step hc hI (step_refines hst)) h
+
+theorem invK_of_run {count queues : Nat} {nodeOf : Nat → Nat} (hc : 0 < count)
+    (H : queues = 2 ∨ count ≤ 2)
+    {es : List Ev} {s : St} (h : (sys count queues nodeOf).run es = some s) :
+    InvA count (abs s) ∧ InvK count queues (abs s) :=
+  Sys.inv_of_run (sys count queues nodeOf) (fun s => InvA count (abs s) ∧ InvK count queues (abs s))
+    ⟨InvA.init count nodeOf, InvK.init count queues nodeOf⟩
+    (fun _ _ _ hI hst => ⟨InvA.step hc hI.1 (step_refines hst),
+      InvK.step hc H hI.1 hI.2 (step_refines hst)⟩) h
+
+theorem exists_of_tot_pos {g : Nat → Nat} {l : List Nat} (h : 1 ≤ tot g l) : ∃ x ∈ l, 1 ≤ g x := by
+  apply Classical.byContradiction
+  intro hne
+  have : tot g l = 0 := tot_eq_zero (fun x hx => by
+    apply Classical.byContradiction; intro h0; exact hne ⟨x, hx, by omega⟩)
+  omega
+
+/-- what an accepted `ret wait` event needs -/
+theorem retWait_pc {count queues : Nat} {s s' : St} {f k : Nat} {b : Bool}
+    (h : step count queues s (.retWait f k b) = some s') :
+    k = s.rnd f ∧ ((∃ c, s.pc f = .serialDone c ∧ b = true) ∨ (∃ c, s.pc f = .runnable c ∧ b = false)) := by
+  simp only [step] at h
+  split at h
+  · next hk =>
+    refine ⟨hk, ?_⟩
+    split at h
+    · next c hpc =>
+      split at h
+      · next hb => exact Or.inl ⟨c, hpc, hb⟩
+      · simp at h
+    · next c hpc =>
+      split at h
+      · simp at h
+      · next hb => exact Or.inr ⟨c, hpc, by simpa using hb⟩
+    · simp at h
+  · simp at h
+
 end LibfiberVerif.Barrier
